@@ -23,18 +23,18 @@ for v in "$@"; do
     plain)
       [ -d "$S/repo" ] || snapshot "$S/repo"
       mkmod plain "$S/repo"
-      (cd "$VERIF/sim" && go build -modfile="$S/plain.mod" -o "$S/bin/orbsim-plain" ./cmd/orbsim)
+      (cd "$VERIF/sim" && go build -ldflags "-X verif/sim/props.Variant=plain" -modfile="$S/plain.mod" -o "$S/bin/orbsim-plain" ./cmd/orbsim)
       ;;
     race)
       [ -d "$S/repo" ] || snapshot "$S/repo"
       mkmod race "$S/repo"
-      (cd "$VERIF/sim" && go build -race -modfile="$S/race.mod" -o "$S/bin/orbsim-race" ./cmd/orbsim)
+      (cd "$VERIF/sim" && go build -race -ldflags "-X verif/sim/props.Variant=race" -modfile="$S/race.mod" -o "$S/bin/orbsim-race" ./cmd/orbsim)
       ;;
     instr)
       snapshot "$S/repo-instr"
       "$VERIF/bin/instr" -dir "$S/repo-instr" -report "$S/instr-report.json"
       mkmod instr "$S/repo-instr"
-      (cd "$VERIF/sim" && go build -modfile="$S/instr.mod" -o "$S/bin/orbsim-instr" ./cmd/orbsim)
+      (cd "$VERIF/sim" && go build -ldflags "-X verif/sim/props.Variant=instr" -modfile="$S/instr.mod" -o "$S/bin/orbsim-instr" ./cmd/orbsim)
       ;;
     *) echo "unknown variant $v" >&2; exit 2;;
   esac
